@@ -103,7 +103,8 @@ type clNode struct {
 	pps      *isaac.ProposalProcessors
 	sv       *isaac.SuffrageVoting
 	resolver *isaacstates.DefaultBallotStuckResolver
-	known    []base.Ballot
+	known    []base.Ballot   // the ballots this process has seen, each once
+	knownSet map[string]bool
 
 	// history for the oracles (survives restarts: it is what the world saw)
 	sent      map[string]clSent // (stage point, sc) -> first locally signed fact that left the node
@@ -150,6 +151,8 @@ func (cl *cluster) reach(a, b int) bool {
 	return a != b && cl.group[a] == cl.group[b] && cl.nodes[a].alive && cl.nodes[b].alive
 }
 
+var clDebug = os.Getenv("VERIF_CLDEBUG") != ""
+
 func (cl *cluster) lost() bool {
 	if cl.loss > 0 && cl.r.Chance(1, cl.loss) {
 		cl.r.Fault("message_lost")
@@ -181,6 +184,10 @@ func (cl *cluster) send(kind string, from, to int, deliver func(nd *clNode)) {
 	d := cl.delay()
 	target := cl.nodes[to]
 	epoch := target.epoch
+
+	if clDebug {
+		cl.r.Event(fmt.Sprintf("send %s %d->%d", kind, from, to))
+	}
 
 	run := func() {
 		cl.r.Sleep(d)
@@ -238,7 +245,7 @@ func (cl *cluster) broadcastBallot(from *clNode, epoch int, bl base.Ballot) {
 		}
 	}
 
-	from.known = append(from.known, bl)
+	from.know(bl)
 
 	for to := 0; to < cl.n; to++ {
 		if to == from.i {
@@ -251,12 +258,28 @@ func (cl *cluster) broadcastBallot(from *clNode, epoch int, bl base.Ballot) {
 
 // deliverBallot is the ingress of a node as launch wires it (memberlist
 // notify callback): IsValid, then Ballotbox.Vote.
+// know remembers a ballot for the answers to missing-ballot requests; a ballot that arrives again (duplicated, or
+// sent again by the broadcast timers, or as such an answer) is not remembered twice.
+func (nd *clNode) know(bl base.Ballot) {
+	k := bl.HashBytes()
+	if nd.knownSet == nil {
+		nd.knownSet = map[string]bool{}
+	}
+
+	if nd.knownSet[string(k)] {
+		return
+	}
+
+	nd.knownSet[string(k)] = true
+	nd.known = append(nd.known, bl)
+}
+
 func (nd *clNode) deliverBallot(bl base.Ballot) {
 	if err := bl.IsValid(common.NetworkID); err != nil {
 		return
 	}
 
-	nd.known = append(nd.known, bl)
+	nd.know(bl)
 
 	box := nd.box
 
@@ -540,7 +563,7 @@ func (cl *cluster) boot(nd *clNode) {
 	nd.epoch++
 	epoch := nd.epoch
 	nd.alive = true
-	nd.known = nil
+	nd.known, nd.knownSet = nil, map[string]bool{}
 	nd.switched = nil
 	nd.allowed = true
 	nd.sampled = isaacstates.StateEmpty
